@@ -77,6 +77,19 @@ CHECKS["C19"] = dict(
     note="Domain: non-negative sizes/offsets, initialized_size assignments within the declared size (the property's 'such assignments'); direct assignment of a longer `contents` is outside the property. "
          "bytearray semantics and the protobuf runtime are CPython's/protobuf's.")
 
+PROTO_NOTE = ("Model/Proto.v transcribes every _to_protobuf/_decode_protobuf pair at message level with the staged decode order and the kind checks of the per-IR UUID table; "
+              "the protobuf wire codec is the runtime's (trusted). ")
+for _pid, _txt, _sec in [
+    ("C01", "RT stream: random self-contained IRs built through the public API (boundary catalogue) saved and loaded: content equality on public attributes, deep_eq both ways, AuxData type names and decoded values with node identity, re-save equality; load(save(content)) on the extracted Coq model must agree.", "5 C01"),
+    ("C02", "W stream: bytes written by save parsed with classes built from /repo/proto and compared field by field with to_proto(content) of the Coq model and with a direct Python statement of the schema correspondence; R stream: messages built directly from the descriptors (one per declared enum constant + random closed messages) loaded and compared with from_proto(message) and with the direct statement.", "5 C02"),
+    ("C09", "Identity (`is`) of referents, entry points, CFG endpoints, expression symbols and AuxData UUID/Offset entries against get_by_uuid/containment on loaded files from both streams; every reference site of valid messages made dangling / ill-typed / wrong length one at a time: DeserializationError (ValueError for bad lengths), as the Coq reader model decides.", "5 C09"),
+    ("C17", "Fault enumeration: every single structural fault class at every site of valid messages (outcome class against the property's table and the Coq reader model; coherence oracle on anything load returns), every header variation, every truncation / bit flips / substitutions of valid files, acceptance of every saved file.", "5 C17"),
+    ("C18", "Pairs (save/load copy, one perturbation from a 74-kind catalogue covering every compared field of every class, neutral changes) judged by content equality and compared with ir_deq of Model/DeepEq.v in both directions and with its specification norm a = norm b; node-level reflexivity/symmetry/other-kind calls.", "5 C18"),
+]:
+    CHECKS[_pid] = dict(category="exploration" if _pid not in ("C17",) else "fault_enumeration", text=_txt, design=_sec,
+                        technique="differential execution of extracted Coq model + direct oracle (Coq proofs in progress)",
+                        note=PROTO_NOTE + _INTERIM % _pid)
+
 NOT_YET = {}
 
 
